@@ -79,6 +79,9 @@ struct ItemReq {
     /// D13: closure ordinals whose enclosing `OPTION.map(|pat| body)` is rewritten to a `match`
     #[serde(default)]
     option_map: Vec<usize>,
+    /// mode "slice": contiguous top-level statements [a, b) of the function body
+    #[serde(default)]
+    stmts: Vec<usize>,
 }
 
 #[derive(Serialize, Default)]
@@ -102,6 +105,8 @@ struct ItemOut {
     params: Vec<String>,
     /// associated `type X = ..;` items of a trait impl (after monomorphisation)
     assoc: String,
+    /// struct declarations: field names in declaration order (tuple fields: their index)
+    fields: Vec<String>,
     n_closures: usize,
     n_loops: usize,
 }
@@ -566,6 +571,7 @@ struct BodyVisitor<'ast> {
     sums: Vec<&'ast syn::ExprMethodCall>,
     ctor_args: Vec<&'ast syn::ExprPath>,
     maps: Vec<&'ast syn::ExprMethodCall>,
+    derefs: Vec<&'ast syn::ExprUnary>,
 }
 
 impl<'ast> Visit<'ast> for BodyVisitor<'ast> {
@@ -600,6 +606,12 @@ impl<'ast> Visit<'ast> for BodyVisitor<'ast> {
             }
         }
         syn::visit::visit_expr_method_call(self, m);
+    }
+    fn visit_expr_unary(&mut self, u: &'ast syn::ExprUnary) {
+        if let syn::UnOp::Deref(_) = u.op {
+            self.derefs.push(u);
+        }
+        syn::visit::visit_expr_unary(self, u);
     }
     fn visit_item(&mut self, _i: &'ast syn::Item) {
         // do not descend into nested items
@@ -767,8 +779,68 @@ fn process_fn(
                     }
                 }
 
+                // D6: `for x in &mut ARR { .. *x .. }` -> index loop over ARR[i]
+                let mut d6_done: Vec<usize> = Vec::new();
+                for (k, l) in bv.loops.iter().enumerate() {
+                    if let syn::Expr::ForLoop(f) = l {
+                        if let syn::Expr::Reference(r) = &*f.expr {
+                            if r.mutability.is_some() {
+                                let arr = src.text[src.start(&*r.expr)..src.end(&*r.expr)].to_string();
+                                let var = match &*f.pat {
+                                    syn::Pat::Ident(pi) => pi.ident.to_string(),
+                                    _ => return Err("unsupported: `for PAT in &mut ..` with a non-identifier pattern".to_string()),
+                                };
+                                let iv = format!("vx_i{}", k);
+                                let inv = req.loops.get(&k.to_string()).map(|ls| ctx.subst_param_refs(&ls.inv, &params)).unwrap_or_default();
+                                let o = src.off(f.body.brace_token.span.open().start());
+                                ctx.edits.replace(src.start(*l), o, format!("let mut {iv}: usize = 0;\n        while {iv} < {arr}.len()\n{inv}\n            decreases {arr}.len() - {iv},\n        ", iv = iv, arr = arr, inv = indent(&inv, 12)), "D6", format!("loop {}: `for {} in &mut {}` rewritten to an index loop", k, var, arr));
+                                for u in &bv.derefs {
+                                    if let syn::Expr::Path(p) = &*u.expr {
+                                        if p.path.is_ident(&var) && src.start(*u) >= o && src.end(*u) <= src.end(&f.body) {
+                                            ctx.edits.replace(src.start(*u), src.end(*u), format!("{}[{}]", arr, iv), "D6", String::new());
+                                        }
+                                    }
+                                }
+                                let close = src.off(f.body.brace_token.span.close().start());
+                                ctx.edits.insert(close, format!("    {} += 1;\n        ", iv), "D6", String::new());
+                                d6_done.push(k);
+                            }
+                        }
+                    }
+                }
+
+                // D15: `for (i, x) in E.iter().enumerate() { .. }` -> index loop with `let i = idx; let x = &E[idx];`
+                for (k, l) in bv.loops.iter().enumerate() {
+                    if let syn::Expr::ForLoop(f) = l {
+                        if let syn::Expr::MethodCall(en) = &*f.expr {
+                            if en.method == "enumerate" && en.args.is_empty() {
+                                if let syn::Expr::MethodCall(it) = &*en.receiver {
+                                    if it.method == "iter" && it.args.is_empty() {
+                                        let arr = src.text[src.start(&*it.receiver)..src.end(&*it.receiver)].to_string();
+                                        let (iv, xv) = match &*f.pat {
+                                            syn::Pat::Tuple(t) if t.elems.len() == 2 => match (&t.elems[0], &t.elems[1]) {
+                                                (syn::Pat::Ident(a), syn::Pat::Ident(b)) => (a.ident.to_string(), b.ident.to_string()),
+                                                _ => return Err("unsupported: enumerate loop pattern".to_string()),
+                                            },
+                                            _ => return Err("unsupported: enumerate loop pattern".to_string()),
+                                        };
+                                        let idx = format!("vx_e{}", k);
+                                        let inv = req.loops.get(&k.to_string()).map(|ls| ctx.subst_param_refs(&ls.inv, &params)).unwrap_or_default();
+                                        let o = src.off(f.body.brace_token.span.open().start());
+                                        ctx.edits.replace(src.start(*l), o + 1, format!("let mut {idx}: usize = 0;\n        while {idx} < {arr}.len()\n{inv}\n            decreases {arr}.len() - {idx},\n        {{ let {iv} = {idx}; let {xv} = &{arr}[{idx}];", idx = idx, arr = arr, inv = indent(&inv, 12), iv = iv, xv = xv), "D15", format!("loop {}: `for ({}, {}) in {}.iter().enumerate()` rewritten to an index loop", k, iv, xv, arr));
+                                        let close = src.off(f.body.brace_token.span.close().start());
+                                        ctx.edits.insert(close, format!("    {} += 1;\n        ", idx), "D15", String::new());
+                                        d6_done.push(k);
+                                    }
+                                }
+                            }
+                        }
+                    }
+                }
+
                 // loop invariants
                 for (k, l) in bv.loops.iter().enumerate() {
+                    if d6_done.contains(&k) { continue; }
                     if let Some(ls) = req.loops.get(&k.to_string()) {
                         let inv = ctx.subst_param_refs(&ls.inv, &params);
                         match l {
@@ -833,6 +905,16 @@ fn process_fn(
                 }
             }
         }
+    }
+    if req.mode == "slice" {
+        let b = block.ok_or_else(|| "unsupported: slice of a function without body".to_string())?;
+        if req.stmts.len() != 2 || req.stmts[0] >= req.stmts[1] || req.stmts[1] > b.stmts.len() {
+            return Err(format!("lost-anchor: statement range {:?} (function body has {} statements)", req.stmts, b.stmts.len()));
+        }
+        let s = src.start(&b.stmts[req.stmts[0]]);
+        let e = src.end(&b.stmts[req.stmts[1] - 1]);
+        ctx.edits.insert(s, String::new(), "SLICE", format!("only top-level statements {}..{} of the body are verified here; the rest of the function is dropped from this item", req.stmts[0], req.stmts[1]));
+        return Ok((s, e));
     }
     Ok((vis_start, item_end))
 }
@@ -940,6 +1022,9 @@ fn process_item(src: &Src, all: &[(String, &syn::Item)], req: &ItemReq) -> ItemO
                 Ok((s, e, src.start(f), src.end(f)))
             }
             Found::Struct(s) => {
+                for (i, f) in s.fields.iter().enumerate() {
+                    out.fields.push(f.ident.as_ref().map(|x| x.to_string()).unwrap_or_else(|| i.to_string()));
+                }
                 if !req.paths.is_empty() {
                     let mut pv = PathVisitor { paths: &req.paths, found: Vec::new() };
                     pv.visit_item_struct(s);
